@@ -701,7 +701,7 @@ pub fn run(cfg: &RunCfg) -> CheckReport {
     );
     rep.assume("the parser accepts exactly the format the statement describes (file header only before the first hunk; '@' starts a hunk header; ' ', '-', '+' start body lines; the marker line belongs to the preceding body line)");
     rep.assume("H2 attribution hook; KF1 listed in known_findings.json");
-    rep.assume("per rendering on the Myers diff: byte sinks answering with short writes (1 / 3 / all bytes per call, BufWriter over a 2-byte sink, trait object, Interrupted on every other call), one formatter object used with other settings first and then set to the requested ones, the same object rendered twice; consumption modes of iter_hunks / hunk.iter_changes in the quick tier on text pairs of up to 8 bytes, thorough on every pair");
+    rep.assume("per rendering on the Myers diff: byte sinks answering with short writes (1 / 3 / all bytes per call, BufWriter over a 2-byte sink, trait object, Interrupted on every other call), one formatter object used with other settings first and then set to the requested ones, the same object rendered twice; consumption modes of iter_hunks / hunk.iter_changes in the quick tier on text pairs of up to 8 bytes, thorough 3 bytes more");
     let kf = KnownFindings::load(&cfg.verif_dir);
     let kf1_listed = kf.listed("C05", "KF1");
     let radii: Vec<usize> = RADII.to_vec();
